@@ -111,13 +111,15 @@ def run(module, cfg=None, env=None, workers=16, timeout=1800, job=None, extra=()
     m = _RE_DEPTH.search(out)
     if m:
         r.depth = int(m.group(1))
-    for m in _RE_VERDICT.finditer(out):
+    flat = " ".join(out.split())      # TLC pretty-prints long tuples over several lines: match on normalised text
+    flat = flat.replace("<< ", "<<").replace(" >>", ">>")
+    for m in _RE_VERDICT.finditer(flat):
         tid = int(m.group(1))
         cl = set(c for c in m.group(2).split(",") if c)
         if tid in r.verdicts:   # same chain reached its end twice (should not happen) -> union
             cl |= r.verdicts[tid][0]
         r.verdicts[tid] = (cl, int(m.group(3)))
-    for m in _RE_MISMATCH.finditer(out):
+    for m in _RE_MISMATCH.finditer(flat):
         r.mismatches.append((int(m.group(1)), m.group(2)))
     for m in _RE_NOTE.finditer(out):
         r.notes.append(m.group(1))
